@@ -92,3 +92,17 @@ class CNode(RootBase):
 class Bare(NodeBase):
     """an object of a class WITHOUT the trait `value`"""
     tokn = Int
+
+
+class VNode(Node):
+    """a node with VALUE-based equality: all VNodes compare equal (and hash alike).  Assigning a fresh one where another
+    was is "no change" to a trait compared by equality - yet the new object is the one to follow from then on (C16)"""
+
+    def __eq__(self, other):
+        return isinstance(other, VNode)
+
+    def __ne__(self, other):
+        return not isinstance(other, VNode)
+
+    def __hash__(self):
+        return 7
